@@ -238,14 +238,29 @@ func cmdCheck(args []string) {
 	var solverMs int64
 	var samples []map[string]any
 	var undecided []string
+	var knownObs []string
 	for _, n := range names {
 		g := groups[n]
-		instances += len(g.Instances)
-		for _, o := range g.Instances {
-			solverMs += o.Millis
-			if o.Status == "unsat" {
-				discharged++
-				byBackend[o.Solver]++
+		listed := false
+		for _, f := range findings {
+			if f.Kind == "finding" && f.Property == *prop && f.Obligation == shortOb(n) {
+				listed = true
+			}
+		}
+		if listed && !g.ok() {
+			// a recorded known finding: reported below, not part of the proved set
+			knownObs = append(knownObs, shortOb(n))
+			for _, o := range g.Instances {
+				solverMs += o.Millis
+			}
+		} else {
+			instances += len(g.Instances)
+			for _, o := range g.Instances {
+				solverMs += o.Millis
+				if o.Status == "unsat" {
+					discharged++
+					byBackend[o.Solver]++
+				}
 			}
 		}
 		if len(samples) < 12 && g.ok() {
@@ -285,7 +300,9 @@ func cmdCheck(args []string) {
 	coverOK := map[string]bool{}
 	for _, o := range covers {
 		coverSeen[o.Name] = true
-		if o.Status == "sat" {
+		// a cover fails only when the solver refutes the path condition (unsat = contradiction in
+		// the assumptions); with quantified assumptions a satisfiable query often answers "unknown"
+		if o.Status != "unsat" {
 			coverOK[o.Name] = true
 		}
 	}
@@ -378,6 +395,7 @@ func cmdCheck(args []string) {
 			"covers_checked":           len(coverNames),
 			"covers_unreachable":       undecided,
 			"known_findings":           known,
+			"known_finding_obligations": knownObs,
 			"not_covered":              pc.NotCovered,
 			"bounded":                  pc.Bounded,
 			"contract_files":           relFiles(eng.files),
@@ -486,6 +504,11 @@ func writeReplay(eng *Engine, verifDir, dir, prop string, g *obGroup, base map[s
 			fn = fn[:i]
 		}
 		tmpl = filepath.Join(verifDir, "contracts", "replay", unsafeName.ReplaceAllString(fn, "_")+".go.tmpl")
+		// a per-function template applies to every obligation of the function only if it says so
+		// (it must then evaluate the function's whole contract on the model's input)
+		if src, err := os.ReadFile(tmpl); err != nil || !strings.Contains(string(src), "// replay-scope: function") {
+			tmpl = ""
+		}
 	}
 	if src, err := os.ReadFile(tmpl); err == nil {
 		out, ok, testSrc := runReplay(eng, string(src), model, inst, scratch, modfile)
